@@ -1724,10 +1724,19 @@ class Rule(metaclass=LogicalType):
                     value, cls.__origin__, func=cls.__origin_transformer__
                 )
             except Exception as e:
-                error = exc.ParseError(origin_exc=e)
-                # if type cannot convert, the following args and constraints cannot validate
-                # can just abort and stop collect errors if it is specified
-                context.handle_error(error, force_raise=True)
+                if (
+                    cls.__args_parser__
+                    and cls.__origin__ in (set, frozenset)
+                    and isinstance(value, (list, tuple))
+                ):
+                    # items of a list may only become hashable by their conversion (like the JSON form
+                    # of a set of tuples): the set is made of the parsed items below
+                    value = list(value)
+                else:
+                    error = exc.ParseError(origin_exc=e)
+                    # if type cannot convert, the following args and constraints cannot validate
+                    # can just abort and stop collect errors if it is specified
+                    context.handle_error(error, force_raise=True)
 
             if value is None:
                 # do not continue if value is None after parse
@@ -1741,7 +1750,10 @@ class Rule(metaclass=LogicalType):
             if not cls.__abstract__ and type(value) != cls.__origin__:
                 # for abstract types (like Sequence / Iterable)
                 # we just give an instance that satisfy those abstract methods (like a list instance)
-                value = cls.__origin__(value)
+                try:
+                    value = cls.__origin__(value)
+                except Exception as e:
+                    context.handle_error(exc.ParseError(origin_exc=e), force_raise=True)
 
         if not options.ignore_constraints:
             # if options ignore constraints, we will just do type transform
